@@ -177,8 +177,8 @@ section tables
 variable {α κ : Type} [DecidableEq κ]
 
 theorem foldl_setIfAbsent (ks : List κ) (m : Tbl κ Nat) (i : Nat) (k : κ) :
-    (ks.foldl (fun m k => m.setIfAbsent k i) m) k =
-      (m k).or (if k ∈ ks then some i else none) := by
+    (ks.foldl (fun m k => m.setIfAbsent k i) m).get k =
+      (m.get k).or (if k ∈ ks then some i else none) := by
   induction ks generalizing m with
   | nil => simp
   | cons a as ih =>
@@ -186,19 +186,19 @@ theorem foldl_setIfAbsent (ks : List κ) (m : Tbl κ Nat) (i : Nat) (k : κ) :
     unfold Tbl.setIfAbsent Tbl.set
     by_cases hka : k = a
     · subst hka
-      cases hm : m k <;> simp [hm]
-    · cases hma : m a <;> cases hm : m k <;> simp [hm, hka]
+      cases hm : m.get k <;> simp [hm]
+    · cases hma : m.get a <;> cases hm : m.get k <;> simp [hm, hka]
 
 theorem buildFirstFrom_eq (keysOf : α → List κ) (i : Nat) (l : List α) (m : Tbl κ Nat) (k : κ) :
-    buildFirstFrom keysOf i l m k =
-      (m k).or ((l.findIdx? (fun d => decide (k ∈ keysOf d))).map (· + i)) := by
+    (buildFirstFrom keysOf i l m).get k =
+      (m.get k).or ((l.findIdx? (fun d => decide (k ∈ keysOf d))).map (· + i)) := by
   induction l generalizing i m with
   | nil => simp [buildFirstFrom]
   | cons d ds ih =>
     rw [buildFirstFrom, ih, foldl_setIfAbsent, List.findIdx?_cons]
     by_cases hk : k ∈ keysOf d
-    · cases hm : m k <;> simp [hk]
-    · cases hm : m k <;> simp [hk, Option.map_map, Function.comp_def, Nat.add_assoc, Nat.add_comm 1 i]
+    · cases hm : m.get k <;> simp [hk]
+    · cases hm : m.get k <;> simp [hk, Option.map_map, Function.comp_def, Nat.add_assoc, Nat.add_comm 1 i]
 
 theorem byKeyFirst_eq (keysOf : α → List κ) (l : List α) (k : κ) :
     byKeyFirst keysOf l k = l.findIdx? (fun d => decide (k ∈ keysOf d)) := by
@@ -208,8 +208,8 @@ theorem byKeyFirst_eq (keysOf : α → List κ) (l : List α) (k : κ) :
   | cons d ds => simp [buildFirstFrom_eq, Tbl.empty]
 
 theorem buildLastFrom_eq (keyOf : α → κ) (i : Nat) (l : List α) (m : Tbl κ Nat) (k : κ) :
-    buildLastFrom keyOf i l m k =
-      (((l.reverse.findIdx? (fun d => decide (keyOf d = k))).map (fun j => i + (l.length - 1 - j)))).or (m k) := by
+    (buildLastFrom keyOf i l m).get k =
+      (((l.reverse.findIdx? (fun d => decide (keyOf d = k))).map (fun j => i + (l.length - 1 - j)))).or (m.get k) := by
   induction l generalizing i m with
   | nil => simp [buildLastFrom]
   | cons f fs ih =>
@@ -311,7 +311,7 @@ end names
 
 theorem fieldNumbersHas_iff (l : List Int) (n : Int) : fieldNumbersHas l n = true ↔ n ∈ l := by
   unfold fieldNumbersHas
-  suffices h : ∀ (m : Tbl Int Unit), ((l.foldl (fun (m : Tbl Int Unit) x => m.set x ()) m) n).isSome = true ↔ (n ∈ l ∨ (m n).isSome = true) by
+  suffices h : ∀ (m : Tbl Int Unit), ((l.foldl (fun (m : Tbl Int Unit) x => m.set x ()) m).get n).isSome = true ↔ (n ∈ l ∨ (m.get n).isSome = true) by
     simpa [Tbl.empty] using h Tbl.empty
   induction l with
   | nil => simp
